@@ -279,6 +279,38 @@ def expand_merges(interp, term, pc=(), limit=4096):
     return out
 
 
+def expand_all_merges(interp, pc, value, limit=4096):
+    """like expand_merges, for merges that occur in the path condition as
+    well: every (pc, value) alternative with the merged terms replaced
+    consistently in the conditions and in the value"""
+    from .terms import walk
+    inner = None
+    for (t, b, site) in pc:
+        for x in walk(t):
+            if isinstance(x, tuple) and x and x[0] == "merge":
+                inner = x
+                break
+        if inner is not None:
+            break
+    if inner is None and value is not None:
+        for x in walk(value):
+            if isinstance(x, tuple) and x and x[0] == "merge":
+                inner = x
+                break
+    if inner is None:
+        return [(tuple(pc), value)]
+    out = []
+    for (apc, aval) in interp.merges[inner]:
+        npc = tuple((_subst(t, inner, aval), b, site) for (t, b, site) in pc) + tuple(apc)
+        nval = None if value is None else (aval if value == inner else
+                                           _subst(value, inner, aval))
+        out.extend(expand_all_merges(interp, npc, nval, limit))
+        if len(out) > limit:
+            from .repo import AnalysisError
+            raise AnalysisError("too many merged alternatives")
+    return out
+
+
 def _subst(t, old, new):
     if t == old:
         return new
